@@ -14,7 +14,7 @@ for p in sorted(glob.glob(os.path.join(here, "checks", "C*.json"))):
     d = json.load(open(p)); pid = d.get("property") or os.path.basename(p)[:3]
     obs = []
     for o in d["obligations"]:
-        q = (o.get("quick", {}).get("ladder") or [{}])[-1]; t = (o.get("thorough", {}).get("ladder") or [{}])[-1]
+        q = (o.get("quick", {}).get("ladder") or [{}])[0]; t = (o.get("thorough", {}).get("ladder") or [{}])[0]  # first rung = the registered bound; later rungs are fall-backs
         n = o["id"].split(".")[1]
         obs.append(n if not q and not t else f"{n} [{b(q)} / {b(t)}]")
     ev = json.load(open(os.path.join(here, "evidence", pid + ".json")))
